@@ -229,9 +229,24 @@ def monMemberKept (es : List Ev) : Option String :=
     | _ :: r => go cur r
   go none es
 
+/-- "the generation ends when the group is closed": when `run` exits, every generation it created has been closed
+(`gen.close()`: done closed, started functions waited for) — also one that was still waiting to be handed to `Next`;
+and no heartbeat / watcher poll is issued after `run` exited -/
+def monClosedAtExit (es : List Ev) : Option String :=
+  scan (fun past e =>
+    match e with
+    | .runExit =>
+      let made := past.filterMap (fun p => match p with | .gNew g _ _ => some g | _ => none)
+      match made.find? (fun g => !(past.any fun p => match p with | .gClose g' _ _ => g' == g | _ => false)) with
+      | some g => some s!"run-exit-with-live-generation:g{g}"
+      | none => none
+    | .hbCall g _ _ => if past.any (· == .runExit) then some s!"heartbeat-after-run-exit:g{g}" else none
+    | .watchCall g _ => if past.any (· == .runExit) then some s!"watch-after-run-exit:g{g}" else none
+    | _ => none) [] es 0
+
 def monitors (nWatch : Nat) (es : List Ev) : List String :=
   [monOneLive es, monCtx es, monLeave es, monBackoff es, monHeartbeat es, monWatch es, monWatchAll nWatch es,
-   monLateStart es, monMemberKept es].filterMap id
+   monLateStart es, monMemberKept es, monClosedAtExit es].filterMap id
 
 def showPC (p : PC) : String := (toString (repr p)).replace "\n" " "
 
